@@ -329,11 +329,18 @@ type Miner struct {
 
 func (m *Miner) Close() { m.cancel() }
 
+// MinerToken is the client number of the generator's wallet in account lists.
+const MinerToken = 999
+
 var clientKeys = map[int]*Key{}
 var ckMu sync.Mutex
 
 // ClientKey returns the key pair of client number i.
 func ClientKey(i int) *Key {
+	if i == MinerToken {
+		Setup()
+		return MinerKey // the generator's own wallet
+	}
 	ckMu.Lock()
 	defer ckMu.Unlock()
 	k, ok := clientKeys[i]
